@@ -191,6 +191,16 @@ def compare_outcomes(ctx, out_b, out_s, objs1, objs2, label="", state_on_raise=T
 
 def compare_state(ctx, o1, o2, label, i):
     if isinstance(o1, SObj):
+        from .values import canonical, canon_entry
+        ent = canon_entry(o1.cls)
+        if ent is not None and all(f in o2.fields for f in ent[1]):
+            # the specification's final object, rebuilt from its abstract view by the real constructor
+            try:
+                o2 = canonical(SObj(o2.cls, {f: o2.fields[f] for f in ent[1]}))
+            except RaiseEx as e:
+                ctx.fail(label + "refines/state:%s-view-not-constructible" % o1.cls.__name__,
+                         detail="the specified final view is rejected by the constructor (%s)" % e.cls.__name__)
+                return
         f1, f2 = o1.fields, o2.fields
         cname = o1.cls.__name__
     elif isinstance(o1, (list, dict)):
